@@ -340,7 +340,7 @@ pub fn run(ctx: &Ctx) {
             run.space(&sp, &two, false);
         }
     }
-    run.space(&context("Init.bom", &[b"", b"\xEF", b"\xEF\xBB", b"\xEF\xBB\xBF", b"\xEF\xBB\xBF\xEF\xBB\xBF"], b"<?xml >a/", t.pick(5, 6), &[b""], false), &two, false);
+    run.space(&context("Init.bom", &[b"", b"\xEF", b"\xEF\xBB", b"\xEF\xBB\xBF", b"\xEF\xBB\xBF\xEF\xBB\xBF", b"\xFF", b"\xFE"], b"<?xml >a/", t.pick(5, 6), &[b""], false), &two, false);
 
     run.space(&ws_class(), &[NEUTRAL, DEFAULT, 127], false);
     run.space(&mid_bom(t.pick(3, 4)), &[NEUTRAL, DEFAULT, 127, NEUTRAL | TRIM_START | TRIM_END], false);
